@@ -48,6 +48,7 @@ def plan(tier, seed):
     specs.append({'kind': 'examples', 'steps': 1_500_000 if tier == 'quick' else 8_000_000})
     specs.append({'kind': 'illegal'})
     specs.append({'kind': 'library'})
+    specs += [{'kind': 'histories', 'part': i, 'parts': 4, 'tier': tier} for i in range(4)]
     for s in common.shard_seeds(seed, 4 if tier == 'quick' else 16):
         specs.append({'kind': 'exits', 'seed': s, 'count': 40 if tier == 'quick' else 120})
     return specs
@@ -99,6 +100,11 @@ empty @is_you(const string[] w) {
 }
 ''', [[], [''], ['', 'ab', ''], ['x' * 255, 'y' * 256]]),
 ]
+
+
+def hash_stride(tag):
+    import zlib
+    return zlib.crc32(tag.encode())
 
 
 def judge(res, run, case, sites):
@@ -182,6 +188,21 @@ def run_shard(spec):
             for x in ('0', '1', '2', '5'):
                 for unchecked in (False, True):
                     run_one(res, src, [x], 2, unchecked, f'exits+boom:{spec["seed"]}:{i}', sites)
+    elif spec['kind'] == 'histories':
+        # try-block histories across functions (which function is compiled first decides how defeat is reached in the others)
+        # and with a try nested in a handler: every defeat on the committed timeline ends in a handler, never in a halt
+        from ..gen import idioms
+        k = 0
+        for tag, prog in idioms.history_programs():
+            if not tag.startswith(('history-two-functions', 'history-nested-handler')) and hash_stride(tag) % 5:
+                continue
+            k += 1
+            if k % spec['parts'] != spec['part']:
+                continue
+            src = A.render(prog)
+            for a in (idioms.HISTORY_ARGS if spec['tier'] != 'quick' or tag.startswith('history-nested') else (idioms.HISTORY_ARGS[1], idioms.HISTORY_ARGS[3])):
+                for unchecked in (False, True):
+                    run_one(res, src, list(a), 2, unchecked, 'history:' + tag, sites)
     elif spec['kind'] == 'library':
         # every library routine with empty, one-element and ordinary operands of every storage kind (the routines are
         # loops around Turing jumps: an exit test that halts on both sides is a committed halt), plain and inside try bodies
